@@ -110,11 +110,13 @@ ExpectedDead(E, L, gone, del) ==
   IN DeadClosure(E, U, (del \cap U) \cup MapLosers(E, L) \cup {x \in U : E[x].par \in gone})
 
 Alive(R, x) == x \notin R.dead /\ x \notin R.gone
+(* formatting marks are listed elements that are never visible (not countable) *)
+Countable(E, x) == E[x].kind # "fmt"
 Visible(E, R, c) ==
   LET s == Lst(R.lst, c)
   IN IF Keyed(E, s)
      THEN (IF Alive(R, s[Len(s)]) THEN <<s[Len(s)]>> ELSE <<>>)
-     ELSE SelectSeq(s, LAMBDA x : x \notin R.dead)
+     ELSE SelectSeq(s, LAMBDA x : x \notin R.dead /\ Countable(E, x))
 
 (* a container can be reached through the public API iff every owning type element is alive *)
 RECURSIVE Reachable(_, _, _, _)
